@@ -125,7 +125,7 @@ func runC15(c core.Case) core.Result {
 	cfg := gen.Config(r)
 	cfg.ImmutableBuffer = int(c.Int("imm", 0))
 	cfg.MemtableByteThreshold = int(c.Int("mem", 1))
-	delay := map[string]string{"fast-writers": "slow-flusher", "begin-storm": "slow-commit", "close-pending": "slow-flusher", "close-idle": "none", "two-dbs": "jitter"}[family]
+	delay := map[string]string{"fast-writers": "slow-flusher", "begin-storm": "slow-commit", "close-pending": "slow-flusher", "close-idle": "none", "two-dbs": "jitter", "open-at-close": "jitter"}[family]
 	eng.H.SetProfile(delay, c.Seed)
 	defer eng.H.SetProfile("none", 0)
 	before := eng.H.Snapshot()
@@ -220,8 +220,30 @@ func runC15(c core.Case) core.Result {
 		if pending > 0 {
 			res.AddObs("close_with_pending_flushes", 1)
 		}
+		// transactions still open when the database is closed (a deferred Discard that runs late):
+		// more of them than any internal channel has slots; their Discard has to return as well
+		var openTx []*originium.Txn
+		if family == "open-at-close" {
+			k := 110 + r.Intn(100)
+			for i := 0; i < k; i++ {
+				tx := dbs[0].Begin(i%3 == 0)
+				if i%3 == 0 {
+					tx.Set(fmt.Sprintf("never-committed-%d", i), []byte("x"))
+				} else if i%3 == 1 {
+					tx.Get("w0.0/k0")
+				}
+				openTx = append(openTx, tx)
+			}
+		}
 		for _, db := range dbs {
 			db.Close()
+		}
+		for _, tx := range openTx {
+			tx.Discard()
+			calls++
+		}
+		if len(openTx) > 0 {
+			res.AddObs("transactions_discarded_after_close", int64(len(openTx)))
 		}
 		// after Close returned the background flusher has stopped
 		if n := runGoroutinesSettle(run0); n != run0 {
@@ -253,7 +275,7 @@ func runC15(c core.Case) core.Result {
 	}
 	res.AddObs("client_calls_completed", int64(calls))
 	res.AddObs("family."+family, 1)
-	res.NonTrivial = obs["queue.sender-waited"] > 0 || obs["begin.during-commit"] >= 3 || family == "close-idle"
+	res.NonTrivial = obs["queue.sender-waited"] > 0 || obs["begin.during-commit"] >= 3 || family == "close-idle" || family == "open-at-close"
 	res.Hash = core.HashOf([]any{c.Seed, c.S, c.N})
 	if c.Int("sample", 0) == 1 {
 		res.Sample = map[string]any{"family": family, "config": gen.CfgString(cfg), "writers": c.Int("writers", 3), "txns": c.Int("txns", 40),
@@ -289,7 +311,7 @@ func genC15(tier string, seed int64) []core.Case {
 		n = 600
 	}
 	r := rand.New(rand.NewSource(seed*373587883 + 15))
-	fams := []string{"fast-writers", "fast-writers", "begin-storm", "close-pending", "close-idle", "two-dbs"}
+	fams := []string{"fast-writers", "fast-writers", "begin-storm", "close-pending", "close-idle", "two-dbs", "fast-writers", "open-at-close"}
 	var cs []core.Case
 	for i := 0; i < n; i++ {
 		f := fams[i%len(fams)]
@@ -318,7 +340,7 @@ func init() {
 	})
 	core.Register(&core.Check{
 		Prop: "C15", Level: "exploration",
-		Rule: "case = one scenario, two rounds on the same directories: fast-writers (2-5 writers commit faster than a flusher slowed at its schedule points, flush queue 0-3, memtable 1-300 B), begin-storm (4-8 readers Begin while commits are slowed between timestamp and write), close-pending (Close with flushes queued), close-idle (Close right after Open), two-dbs (two databases in one process); every call must return: an in-process watchdog far above normal latency takes two goroutine dumps 3 s apart and declares a deadlock only if no hook fired in between and every goroutine inside the engine is parked in the same frame with a blocking wait reason; after Close no flush goroutine may remain and an immediate Open must read every writer's last committed value (writers own disjoint keys); non-trivial = a sender actually waited for the flush queue, or >=3 Begins arrived during a commit, or the idle-close family; distinct by case parameters",
+		Rule: "case = one scenario, two rounds on the same directories: fast-writers (2-5 writers commit faster than a flusher slowed at its schedule points, flush queue 0-3, memtable 1-300 B), begin-storm (4-8 readers Begin while commits are slowed between timestamp and write), close-pending (Close with flushes queued), open-at-close (110-210 transactions still open when Close is called, discarded afterwards), close-idle (Close right after Open), two-dbs (two databases in one process); every call must return: an in-process watchdog far above normal latency takes two goroutine dumps 3 s apart and declares a deadlock only if no hook fired in between and every goroutine inside the engine is parked in the same frame with a blocking wait reason; after Close no flush goroutine may remain and an immediate Open must read every writer's last committed value (writers own disjoint keys); non-trivial = a sender actually waited for the flush queue, or >=3 Begins arrived during a commit, or the idle-close family; distinct by case parameters",
 		Gen:  genC15, Run: runC15, BatchSize: 5, GoMaxProcs: 4, Parallel: 6, CaseTimeout: 90 * time.Second,
 		OnStuck:       stuckToViolation("C15"),
 		MinNonTrivial: map[string]int{"quick": 15, "thorough": 200},
